@@ -380,5 +380,66 @@ def r8_actions_cannot_raise_typeerror(chk):
     r2b_operand_shapes(chk, rule='C11.R8')
 
 
+def ir_guards(node, fn):
+    from rules import ir
+    return ir.guards_of(node, fn)
+
+
+def r10_token_rules_return_the_token(chk):
+    """a lexer rule named after a declared token hands that token to the parser on every path that does not raise; the
+    other rule functions (comment, newline, macro/exports/choice bodies) consume silently"""
+    from vt import defuse
+    model = chk.model
+    lm = lexer_model(chk)
+    mod = model.mod(LEXER)
+    chk.doc('C11.R10', 'every function rule t_[<state>_]<NAME> whose NAME is a declared token returns its token '
+                       'argument on every returning path (a bare return or falling off the end drops the token and the '
+                       'text it matched vanishes from the parse); rule functions whose name is not a token return '
+                       'nothing')
+    toks = set()
+    for dname, opts in sorted(shipped_dialects(model).items()):
+        toks |= set(lexer_tables(model, opts)[2])
+    n = 0
+    seen = set()
+    for s_ in sorted(lm.states):
+        for r in lm.rules[s_]:
+            if r.fn is None or id(r.fn) in seen or r.name == 't_error':
+                continue
+            seen.add(id(r.fn))
+            tokp = r.fn.args.args[-1].arg
+            rets = [x for x in walk_no_nested(r.fn) if isinstance(x, ast.Return)]
+            if r.tokname in toks:
+                none_paths = defuse.returns_none_somewhere(r.fn)
+                other = [x for x in rets if x.value is not None and norm(x.value) != tokp]
+                n += 1
+                chk.ob('C11.R10', 'rule %s/returns-token' % r.name, not none_paths and not other,
+                       where(mod, (none_paths or other or [r.fn])[0]),
+                       'token rule can finish without returning its token: the matched text is silently skipped')
+            else:
+                vals = [x for x in rets if x.value is not None]
+                n += 1
+                chk.ob('C11.R10', 'rule %s/consumes-silently' % r.name, not vals, where(mod, r.fn),
+                       '%s is not a declared token but the rule returns a value' % r.tokname)
+    # identifiers: a forbidden word and a trailing hyphen are rejected (raise reachable exactly under the test)
+    from vt.cfg import CFG
+    ci = model.cls(LEXER, 'SmiV2Lexer')
+    for rname, needs in (('t_UPPERCASE_IDENTIFIER', ('forbidden', 'hyphen')), ('t_LOWERCASE_IDENTIFIER', ('hyphen',))):
+        o, fn = ci.find_method(rname)
+        tokp = fn.args.args[-1].arg
+        cfg = CFG(fn)
+        raises = [x for x in walk_no_nested(fn) if isinstance(x, ast.Raise)]
+        for what in needs:
+            atom = '%s.value in self.forbidden_words' % tokp if what == 'forbidden' else "%s.value[-1] == '-'" % tokp
+            tgt = []
+            for x in raises:
+                g = [norm(t_) for t_, b_ in ir_guards(x, fn)]
+                if atom in g:
+                    tgt.append(cfg.node_of(x))
+            common.requires(chk, 'C11.R10', 'rule %s/rejects-%s' % (rname, what), cfg, mod, tgt, {atom: True},
+                            'identifier check missing or inverted')
+    chk.floor('C11.R10', 15, 'function rules')
+
+
 RULES = [r1_located_package_errors, r2_state_totality, r3_progress_and_token_types, r4_line_accounting, r5_p_error,
-         r6_parse_result, r7_numeric_conversion, r8_actions_cannot_raise_typeerror, r9_number_classifier]
+         r6_parse_result, r7_numeric_conversion, r8_actions_cannot_raise_typeerror, r9_number_classifier,
+         r10_token_rules_return_the_token]
